@@ -97,6 +97,15 @@ def heapBuildK (kind : Kind) (s : Store P) : R (Store P) :=
   | .pq => MaxQ.heapBuild s
   | .dpq => DQ.heapBuild s
 
+/-- NOT an `Op`: what safe client code can do because `iter_mut` yields references with the lifetime of the queue borrow —
+collect them (`iter_mut().collect::<Vec<_>>()`, `.last()`, …), let the guard drop (the heap is rebuilt on the unchanged
+priorities), and only then write through them.  Known finding F7: nothing re-orders the queue after these writes. -/
+def iterMutLate (kind : Kind) (s : Store P) (prog : List (ICall × IMWrite P)) : R (Store P × List IOut) := do
+  let s1 ← heapBuildK kind s
+  let n := s1.map.size
+  let (outs, m) ← iterMutRun kind n prog PIterMut.new (DIterMut.new n) s1.map
+  pure ({ s1 with map := m }, outs)
+
 /-- one public operation -/
 def step (q : Q P) : Op P → R (Q P × Out P)
   | .push it p => do
